@@ -11,7 +11,9 @@
     query to exactly the selected subsets.
   * `C16_compressed_eq_uncompressed_shape`, `C16_compressed_subset_eq`: on a shared tree the compressed
     query is the uncompressed one, subset by subset.
-  * `C16_query_eq_eval...`, `C16_bare_id...`: see the section headers below.
+  * `C16_filter_for_entities_document_order`: slice application and document order of `filter_for_entities`.
+  * `C16_query_eq_eval_partial`, `C16_bare_id_is_flat_filter_partial`: first stages only; the full statements are
+    kept as comment blocks in their sections and are covered by the correspondence run, not by proof.
 -/
 import BufrModel.Lemmas.Query
 namespace Bufr
@@ -181,6 +183,80 @@ theorem C16_compressed_eq_uncompressed_shape (m : QMsg) (p : Path) (t0 : List No
       rw [← mapIdx_congr _ _ idxs (fun i _ => C16_compressed_subset_eq m p.comps t0 o0 hits ht hl hh i)]
       exact h
 
+
+/-! ### slice application and document order (`filter_for_entities`) -/
+
+/-- For a child or attribute step (nothing is "kept": that only happens under `>`), `filter_for_entities` returns
+    the entries that match the id, the slice applied to that list of matches (`Spec.pickSel`: match number `k` for an
+    int, the matches whose rank `pySlice` lists for a slice object), in DOCUMENT order — also for negative steps
+    (the code sorts the selection by position).  Proved for every list, classifier and slice of the path language. -/
+theorem C16_filter_for_entities_document_order {α : Type} (c : Comp) (cls : α → Match) (xs : List α)
+    (hk : ∀ x ∈ xs, cls x ≠ .keep) (hs : Spec.sliceOK c.slice = true) :
+    filterEnt c cls xs = .ok (Spec.pickSel c.slice (xs.filter (fun x => cls x = .hit))) :=
+  filterEnt_eq c cls xs hk hs
+
+/-- the selection is made of matches only, each at most once per rank (it is a sub-list of the matches) -/
+theorem C16_pickSel_subset {α : Type} (sl : Slice) (ms : List α) : ∀ x ∈ Spec.pickSel sl ms, x ∈ ms :=
+  pickSel_subset sl ms
+
+example : Spec.pickSel (.range none none (some (-1))) [10, 20, 30] = [10, 20, 30] := by decide
+example : Spec.pickSel (.range (some 1) none (some (-1))) [10, 20, 30] = [10, 20] := by decide
+example : Spec.pickSel (.idx 1) [10, 20, 30] = [20] := by decide
+
+/-! ### query = evaluation over the nested JSON
+
+  FULL STATEMENT (not proved; checked case by case by the correspondence run: driver field `spec` against `q`
+  on every child/attribute query, ~3700 per quick run, and by the oracle on the implementation):
+
+    C16_query_eq_eval (o : SubsetOut) (tree : List Node) (js : List NJ) (comps : List Comp)
+        (hr : renderNested o tree = .ok js) (hshape : repsOKList o tree = true)
+        (hp : Spec.childAttrOnly comps = true) (hs : ∀ c ∈ comps, Spec.sliceOK c.slice = true) :
+        ((processOne o.descs tree comps).bind (valuesOf o.vals)).toOption = (Spec.evalComps js comps).toOption
+
+  and, for the whole message, `query m p` against `Spec.evalPath (nested JSON per subset) (selected subsets) p.comps`.
+  Proved below: the first stage (one step from the top level, every slice of the path language), with the
+  selection expressed by the specification's own `pickSel`.  MISSING: the induction over the remaining steps (the
+  continuation of a selected node is the evaluation of the rest of the path at its rendering), the replication
+  envelope (blocks of `n_members` nodes = the lists the renderer cuts, C09_replication_chunks) and the pointwise
+  link between a node list and its rendering (equal labels, `vals[index]` = the `value` key). -/
+
+/-- first stage of `C16_query_eq_eval`: a one-step child query selects, among the top-level nodes, exactly those
+    whose label is the id, with the slice applied to that list of matches, in document order.
+    MISSING for the full statement: see the section header. -/
+theorem C16_query_eq_eval_partial (ds : List DDesc) (tree : List Node) (c : Comp) (hsep : c.sep = '/')
+    (hs : Spec.sliceOK c.slice = true) :
+    processOne ds tree [c] =
+      .ok ((Spec.pickSel c.slice (tree.filter (fun n => nodeLabel ds n = some c.id))).map Hit.node) := by
+  apply processOne_last ds tree c (by rw [hsep]; decide) _ hs
+  intro n _
+  have hne : c.sep ≠ '>' := by rw [hsep]; decide
+  by_cases h : nodeLabel ds n = some c.id <;> simp [nodeMatch, h, hne]
+
+/-! ### the bare id
+
+  FULL STATEMENT (not proved; evaluated by the oracle `bare-id` on the implementation and by the correspondence
+  on ~1100 bare-id queries per quick run):
+
+    C16_bare_id_is_flat_filter (o : SubsetOut) (tree : List Node) (id : List Char) (hits : List Hit) (vs : List QV)
+        (hidx : idxList tree = List.range o.vals.length)            -- C09_wire_consumes_each_index_once
+        (hord : OrdinaryElement o.descs tree id)                    -- the id labels no attribute node and no valueless node
+        (h : processOne o.descs tree [⟨'>', id, .range none none none⟩] = .ok hits) (hv : valuesOf o.vals hits = .ok vs) :
+        flattenQV vs = ((o.descs.zip o.vals).filter (fun p => ddChars p.1 = id)).map (·.2)
+
+  Proved below: the stage without composite nodes (a tree of plain value nodes, no attributes, no replication or
+  sequence): the bare id returns the nodes labelled with the id in tree order.  MISSING: the descent through
+  composite nodes (the `keep` classification, `descStep`: factor, then members; one envelope per replication whose
+  flattening is the concatenation of the repetitions) and the appeal to C09 for "tree order = flat order". -/
+
+/-- first stage of `C16_bare_id_is_flat_filter`: on a tree without composite nodes the bare id selects the nodes
+    carrying the id, all of them (`[:]`), in tree order.  MISSING: see the section header. -/
+theorem C16_bare_id_is_flat_filter_partial (ds : List DDesc) (tree : List Node) (id : List Char)
+    (hflat : ∀ n ∈ tree, composite n = false) :
+    processOne ds tree [{ sep := '>', id := id, slice := .range none none none }] =
+      .ok ((Spec.pickSel (.range none none none) (tree.filter (fun n => nodeLabel ds n = some id))).map Hit.node) := by
+  apply processOne_last ds tree _ (show ('>' : Char) ≠ '.' by decide) _ (show Spec.sliceOK (.range none none none) = true by decide)
+  intro n hn
+  by_cases h : nodeLabel ds n = some id <;> simp [nodeMatch, h, hflat n hn]
 
 /-! ### non-vacuity: a wired tree with a delayed replication (counts 2 and 0) and associated-field attributes -/
 
